@@ -42,7 +42,7 @@ def run_impl(case):
     from vivarium.core.process import Process
     from vivarium.library.units import units
     script = [list(t) for t in case['ticks']]
-    decl = {'_default': [float(i + 1) * units.g for i in range(case['n'])]}
+    decl = {'_default': [float(i + 1) * units.g for i in range(case['n'])], '_emit': True}
     if case['how'] == 'set':
         decl['_updater'] = 'set'
     if case['declared']:
@@ -60,7 +60,7 @@ def run_impl(case):
             return {'s': {'v': [m * units.mg for m in script.pop(0)]}}
     obs = {}
     try:
-        eng = Engine(processes={'w': W({})}, topology={'w': {'s': ('s',)}}, emitter={'type': 'null'},
+        eng = Engine(processes={'w': W({})}, topology={'w': {'s': ('s',)}}, emitter={'type': 'ram'},
                      display_info=False, progress_bar=False)
         rows = []
         for _ in case['ticks']:
@@ -69,6 +69,9 @@ def run_impl(case):
             rows.append([[str(getattr(x, 'units', type(x).__name__)), round(float(getattr(x, 'magnitude', x)), 9)]
                          for x in v])
         obs['rows'] = rows
+        data = eng.emitter.get_data_deserialized()
+        obs['emitted'] = [[[str(getattr(x, 'units', type(x).__name__)), round(float(getattr(x, 'magnitude', x)), 9)]
+                           for x in data[t]['s']['v']] for t in sorted(data) if t > 0]
     except Exception as e:  # noqa
         obs['raised'] = f'{type(e).__name__}: {str(e)[:200]}'
     return obs
@@ -82,6 +85,9 @@ def oracle(case, impl):
     if impl.get('raised'):
         return [f'units-raised: {impl["raised"]}']
     want = reference(case)
+    if impl.get('emitted') != want:
+        return [f'list-units-emitted: the rows emitted for a variable whose default is a list of {case["n"]} quantities '
+                f'in gram hold {impl.get("emitted")}; the variable, in its declared units: {want}']
     if impl['rows'] != want:
         return [f'list-units: a variable whose default is a list of {case["n"]} quantities in gram ({case["how"]}) holds '
                 f'{impl["rows"]} after updates in milligram {case["ticks"]}; in its declared units: {want}']
